@@ -141,6 +141,11 @@ func (r *Run) watchdog() {
 		lim = time.Duration(v) * time.Minute
 	}
 	time.Sleep(lim)
+	if r.Violations() > 0 {
+		// the run is over time BECAUSE of what it found (every further case costs seconds): report what was found
+		r.Inconclusive(fmt.Sprintf("stopped by the watchdog after %v with violations already reported; the rest of the workload was not run", lim))
+		r.Finish()
+	}
 	buf := make([]byte, 8<<20)
 	buf = buf[:runtime.Stack(buf, true)]
 	dump := filepath.Join(os.Getenv("VERIF_RUN"), "watchdog-goroutines.txt")
